@@ -768,6 +768,10 @@ static FileType get_file_type(char *filename) {
 }
 
 int main(int argc, char **argv) {
+  // If SIGCHLD is inherited as ignored, the status of a subprocess
+  // cannot be collected.
+  signal(SIGCHLD, SIG_DFL);
+
   atexit(cleanup);
   init_macros();
   parse_args(argc, argv);
